@@ -18,8 +18,10 @@ CFG = {
             "wait until the handler has started and ticked n times, then drop / shutdown(Both) / half-close; read "
             "part of a 1 MiB response and close while the rest is being written), handlers that tick, wait for the "
             "harness's release, or panic at a scripted tick; a probe request sent while the others are in flight. "
-            "Fixed part, per mode: 13 single-request scenarios over h1 (every disconnect point by itself), 8 over "
-            "h2, 9 over tls; seeded part, mixed scenarios per mode: quick h1 K in {2,4,16,64} x8, h2 K=4 x2, h2mux "
+            "a quarter of the handlers of mixed scenarios, and two "
+            "(h1) / one (h2, tls) fixed scenarios per mode, use an endpoint that drops its RequestContext before "
+            "working (handler:context-dropped). Fixed part, per mode: 15 single-request scenarios over h1 (every disconnect point by itself), 9 over "
+            "h2, 10 over tls; seeded part, mixed scenarios per mode: quick h1 K in {2,4,16,64} x8, h2 K=4 x2, h2mux "
             "K in {4,16} x3, tls K in {4,16} x3; thorough h1 160, h2 55, h2mux 70, tls 63 (K up to 64). "
             "The observation is the global event log (handler: entered/tick/completed/panicking/dropped-before-"
             "completion via a drop guard; client: disconnecting/response read complete?/no response), judged in "
